@@ -19,6 +19,74 @@ type callRec struct {
 	lits []string // constant string arguments ("" when not constant), same indexing as args
 	res  []*Term   // result terms (logged module functions only)
 	hide *callInfo // for a gap ("?"): what the callee that caused it may call (nil: anything)
+	mg   *mergeGap // for a gap caused by a merge of paths whose logs differ: what the differing stretches contain
+}
+
+// mergeGap: the calls that may hide in a gap left by a merge (names of the recorded calls in the differing suffixes,
+// and the gaps those suffixes contained themselves)
+type mergeGap struct {
+	names map[string]bool
+	infos []*callInfo // gaps of modular callees inside the differing stretches
+	all   bool        // a gap that may hide anything was inside
+}
+
+func (g *mergeGap) add(recs []callRec) {
+	for _, r := range recs {
+		if r.name != "?" {
+			g.names[r.name] = true
+			continue
+		}
+		switch {
+		case r.mg != nil:
+			for n := range r.mg.names {
+				g.names[n] = true
+			}
+			g.infos = append(g.infos, r.mg.infos...)
+			if r.mg.all {
+				g.all = true
+			}
+		case r.hide != nil:
+			g.infos = append(g.infos, r.hide)
+		default:
+			g.all = true
+		}
+	}
+}
+
+// gapMayHide: may a call matching the name pattern (suffix match, as in findCall) be hidden in the gap record c?
+func gapMayHide(c *callRec, name string) bool {
+	mayInfo := func(ci *callInfo) bool {
+		// a modular callee may call any function outside the module; of the logged module functions only its callees
+		if !strings.HasPrefix(name, "@") || ci.unknown {
+			return true
+		}
+		for f := range ci.callees {
+			if strings.HasSuffix("@"+f.Key, name) {
+				return true
+			}
+		}
+		return false
+	}
+	if c.mg != nil {
+		if c.mg.all {
+			return true
+		}
+		for n := range c.mg.names {
+			if strings.HasSuffix(n, name) {
+				return true
+			}
+		}
+		for _, ci := range c.mg.infos {
+			if mayInfo(ci) {
+				return true
+			}
+		}
+		return false
+	}
+	if c.hide != nil {
+		return mayInfo(c.hide)
+	}
+	return true
 }
 
 type State struct {
@@ -169,6 +237,7 @@ type Exec struct {
 	curTag           string
 	hypTags          map[*Term]string
 	blockDepth       int
+	loopOrds         []int // ordinals of the loops of the function under verification whose body is being executed
 	splitBudget      int
 	goalMode         bool
 	usedContracts    map[string]bool
@@ -329,7 +398,10 @@ func (x *Exec) merge(base *State, states ...*State) *State {
 			for n < len(s.calls) && n < len(m.calls) && sameCalls(s.calls[n:n+1], m.calls[n:n+1]) {
 				n++
 			}
-			m.calls = append(append([]callRec(nil), m.calls[:n]...), callRec{name: "?"})
+			g := &mergeGap{names: map[string]bool{}}
+			g.add(m.calls[n:])
+			g.add(s.calls[n:])
+			m.calls = append(append([]callRec(nil), m.calls[:n]...), callRec{name: "?", mg: g})
 		}
 		if s.epoch != m.epoch {
 			m.epoch = nil
@@ -729,6 +801,14 @@ func (x *Exec) splitActive(nested bool) bool {
 		return false
 	}
 	if nested && !c.SplitDeep {
+		return false
+	}
+	if c.SplitLoops != nil {
+		for _, o := range x.loopOrds {
+			if c.SplitLoops[o] {
+				return true
+			}
+		}
 		return false
 	}
 	return true
@@ -1524,7 +1604,7 @@ func sameCalls(a, b []callRec) bool {
 		return false
 	}
 	for i := range a {
-		if a[i].name != b[i].name || len(a[i].args) != len(b[i].args) {
+		if a[i].name != b[i].name || len(a[i].args) != len(b[i].args) || a[i].hide != b[i].hide || a[i].mg != b[i].mg {
 			return false
 		}
 		for j := range a[i].args {
